@@ -45,6 +45,8 @@ def make_signal(I, state, cls, name="asig", atom=R, dt_atom=DT, n="n", flags="co
     flags: 'cold' (nothing cached: getters recompute) or 'unknown' (each flag may be either)."""
     o = I.new_obj(state, cls, site="param:" + name, is_param=is_param, label=name)
     vals = values if values is not None else rec_array(name + ".values", atom=atom, n=n, alg=values_alg)
+    if not is_param and values is None:
+        vals = vals.replace(origin=frozenset(["o%d._values" % o.id]))
     o.attrs["_values"] = vals
     o.attrs["_dt"] = pos_scalar(name + ".dt", dt_atom)
     o.attrs["_npts"] = AV(kind=K_SCALAR, dtype="int", shape=(), sym=vals.shape[0] if vals.shape else None,
@@ -104,3 +106,16 @@ def _class_attr_names(cls):
 
 def _has_prop(cls, name):
     return cls.find_property(name) is not None
+
+
+def generalise_defaults(I, fi, bound, explicit=()):
+    """Option parameters take any value of their default's kind (None defaults: anything), not the default itself."""
+    for p in fi.defaults:
+        if p in explicit:
+            continue
+        dv = I.ev_default(fi, fi.defaults[p])
+        if dv.kind in (K_NONE, K_TOP, K_TUPLE):
+            bound[p] = AV(kind=K_TOP, shape=None, origin=frozenset(["p:" + p]), tags=frozenset(["p:" + p]))
+        else:
+            bound[p] = dv.replace(const=_NOCONST, sym=None, expo=None, sign=S_ANY, tags=frozenset(["p:" + p]))
+    return bound
